@@ -25,7 +25,7 @@ def run(ctx, replay=None):
                      "label": "ResMC/contbig"})
         runs.append({"cfgname": "ResMC_c07.cfg", "label": "ResMC/store2 3x2",
                      "over": {'ResName = "cont"': 'ResName = "store2"', "NProc = 2": "NProc = 3", "MaxOps = 3": "MaxOps = 2", "MaxEv = 11": "MaxEv = 13"}})
-    kernlib.mc_replay_many(ctx, runs, parallel=4, module="ResMC", limit=12000 if q else None)
+    kernlib.mc_replay_many(ctx, runs, parallel=4, module="ResMC", limit=12000 if q else 150000)
     reslib.gen_histories(ctx, 1200 if q else 20000, "store", "generated-containers-stores")
     return ctx.finish(RULE)
 
